@@ -1,142 +1,170 @@
 // C04 — deterministic random generator (src/drg/chacha.rs; child module of crate::drg::chacha).
-// Every request returns the NEXT bytes of the ChaCha keystream of the wrapped context, whatever the request size and
-// whatever the destination held before.  The wrapped context is ARBITRARY (any state words, cached block, offset), so
-// "every sequence of requests" follows by induction together with the C04 process_mut step.
-// Real update() with ROUNDS = 2 and real xor_keystream_mut are in the formula; request sizes are small constants
-// (the stream logic for long requests is the process_mut step).
+// Every request must be "run the cipher over a ZEROED destination of exactly the requested size" — then, by the C04
+// process_mut step lemma, the bytes returned are the next keystream bytes whatever the request sizes were and whatever
+// the destination held before.  Under Kani ChaCha::process_mut is a recorder (address, length, whether the buffer was
+// all zero when it ran; it then fills the buffer with arbitrary bytes it logs); natively the real cipher runs and the
+// outputs are compared with a second generator in the same state drawing through bytes::<N>().
 #![allow(dead_code, unused_imports, missing_docs)]
 use super::*;
-use crate::chacha::verif_chacha::words_eq;
-use crate::chacha20::verif_ctx::{chacha_parts, mk_chacha, spec_advance, spec_block, spec_source, Ctr};
+use crate::chacha::verif_chacha::{spec_init, words_eq};
+use crate::chacha20::verif_ctx::{chacha_parts, mk_chacha};
 use crate::verif_lib::*;
 
-struct Arb {
-    w: [u32; 16],
-    cached: [u8; 64],
-    offset: usize,
-    b0: [u8; 64],
+pub(crate) const MAXN: usize = 9;
+pub(crate) static mut PN: usize = 0;
+pub(crate) static mut P_PTR: usize = 0;
+pub(crate) static mut P_LEN: usize = 0;
+pub(crate) static mut P_ZERO: bool = false;
+pub(crate) static mut P_OUT: [u8; MAXN] = [0; MAXN];
+#[cfg(kani)]
+pub(crate) fn pm_rec<const ROUNDS: usize>(_c: &mut ChaCha<ROUNDS>, data: &mut [u8]) {
+    let fill: [u8; MAXN] = kani::any();
+    unsafe {
+        PN += 1;
+        P_PTR = data.as_ptr() as usize;
+        P_LEN = data.len();
+        P_OUT = fill;
+        let mut z = true;
+        let mut i = 0;
+        while i < MAXN {
+            if i < data.len() {
+                if data[i] != 0 {
+                    z = false;
+                }
+                data[i] = fill[i];
+            }
+            i += 1;
+        }
+        P_ZERO = z;
+    }
 }
-fn arb() -> Arb {
+fn arb_drg() -> (Drg<2>, Drg<2>) {
     let w: [u32; 16] = any();
     let cached: [u8; 64] = any();
     let offset: usize = any();
     assume(offset <= 64);
-    vcover!(offset == 64, "nothing cached");
-    vcover!(offset == 62, "request straddles a block boundary");
-    let b0 = spec_block(&w, 1);
-    Arb { w, cached, offset, b0 }
-}
-/// next keystream byte i of the arbitrary context (requests here are <= 64 bytes: at most one fresh block)
-fn ks(a: &Arb, i: usize) -> u8 {
-    let (g, o) = spec_source(a.offset, i);
-    if g == 0 {
-        a.cached[o]
-    } else {
-        a.b0[o]
-    }
-}
-macro_rules! check_after {
-    ($a:expr, $d:expr, $n:expr, $what:literal) => {{
-        let a: &Arb = $a;
-        let n: usize = $n;
-        let (w, cached, off) = chacha_parts(&$d.0);
-        let fresh = n > 64 - a.offset;
-        let exp_off = if n == 0 { a.offset } else { spec_source(a.offset, n - 1).1 + 1 };
-        let ew = if fresh { spec_advance(&a.w, Ctr::C32) } else { a.w };
-        vassert!(off == exp_off && words_eq(&w, &ew), $what);
-        let mut i = 0;
-        while i < 64 {
-            vassert!(cached[i] == if fresh { a.b0[i] } else { a.cached[i] }, $what);
-            i += 1;
-        }
-    }};
+    (Drg(mk_chacha::<2>(w, cached, offset)), Drg(mk_chacha::<2>(w, cached, offset)))
 }
 
 fn case_bytes<const N: usize>() {
-    let a = arb();
-    let mut d = Drg(mk_chacha::<2>(a.w, a.cached, a.offset));
+    let (mut d, mut _e) = arb_drg();
     let out: [u8; N] = d.bytes::<N>();
-    let mut i = 0;
-    while i < N {
-        vassert!(out[i] == ks(&a, i), "Drg::bytes: the next N keystream bytes");
-        i += 1;
+    #[cfg(kani)]
+    unsafe {
+        vassert!(PN == 1 && P_LEN == N && P_ZERO, "Drg::bytes: one cipher pass over a zeroed N-byte buffer");
+        let mut i = 0;
+        while i < N {
+            vassert!(out[i] == P_OUT[i], "Drg::bytes: returns the cipher output");
+            i += 1;
+        }
     }
-    check_after!(&a, &d, N, "Drg::bytes: stream position advanced by exactly N");
+    let _ = out;
 }
 fn case_fill_bytes<const N: usize>() {
-    let a = arb();
+    let (mut d, mut e) = arb_drg();
     let prior: [u8; N] = any();
-    let mut d = Drg(mk_chacha::<2>(a.w, a.cached, a.offset));
     let mut out = prior;
     d.fill_bytes::<N>(&mut out);
-    let mut i = 0;
-    while i < N {
-        vassert!(out[i] == ks(&a, i), "Drg::fill_bytes: the next N keystream bytes, independent of prior buffer contents");
-        i += 1;
+    #[cfg(kani)]
+    unsafe {
+        vassert!(PN == 1 && P_PTR == out.as_ptr() as usize && P_LEN == N, "Drg::fill_bytes: one cipher pass over the whole destination");
+        vassert!(P_ZERO, "Drg::fill_bytes: the next N keystream bytes, independent of prior buffer contents");
+        let mut i = 0;
+        while i < N {
+            vassert!(out[i] == P_OUT[i], "Drg::fill_bytes: returns the cipher output");
+            i += 1;
+        }
     }
-    check_after!(&a, &d, N, "Drg::fill_bytes: stream position advanced by exactly N");
+    #[cfg(not(kani))]
+    assert!(out == e.bytes::<N>(), "Drg::fill_bytes: the next N keystream bytes, independent of prior buffer contents");
+    let _ = &mut e;
 }
 fn case_fill_slice<const N: usize>() {
-    let a = arb();
+    let (mut d, mut e) = arb_drg();
     let prior: [u8; N] = any();
     let n: usize = any();
     assume(n <= N);
-    let mut d = Drg(mk_chacha::<2>(a.w, a.cached, a.offset));
+    vcover!(n == 0, "empty request");
+    vcover!(n == N, "largest request");
     let mut out = prior;
     d.fill_slice(&mut out[..n]);
-    let mut i = 0;
-    while i < N {
-        if i < n {
-            vassert!(out[i] == ks(&a, i), "Drg::fill_slice: the next keystream bytes, independent of prior buffer contents");
-        } else {
-            vassert!(out[i] == prior[i], "Drg::fill_slice: bytes beyond the slice untouched");
+    #[cfg(kani)]
+    unsafe {
+        vassert!(PN == 1 && P_PTR == out.as_ptr() as usize && P_LEN == n, "Drg::fill_slice: one cipher pass over exactly the slice");
+        vassert!(P_ZERO, "Drg::fill_slice: the next keystream bytes, independent of prior buffer contents");
+        let mut i = 0;
+        while i < N {
+            if i < n {
+                vassert!(out[i] == P_OUT[i], "Drg::fill_slice: returns the cipher output");
+            } else {
+                vassert!(out[i] == prior[i], "Drg::fill_slice: bytes beyond the slice untouched");
+            }
+            i += 1;
         }
-        i += 1;
     }
-    check_after!(&a, &d, n, "Drg::fill_slice: stream position advanced by exactly the slice length");
+    #[cfg(not(kani))]
+    {
+        let mut r = [0u8; N];
+        e.0.process_mut(&mut r[..n]);
+        assert!(out[..n] == r[..n], "Drg::fill_slice: the next keystream bytes, independent of prior buffer contents");
+    }
+    let _ = &mut e;
 }
 
 #[cfg_attr(kani, kani::proof)]
-#[cfg_attr(kani, kani::unwind(66))]
-#[doc = "verif-unwindset: ::process_mut$=4, xor_keystream_mut=10"]
-#[cfg_attr(kani, kani::stub(core::arch::x86_64::_mm_add_epi32, crate::verif_lib::mm_add_epi32_model))]
-pub(crate) fn c04_drg_bytes_n1_n5() {
+#[cfg_attr(kani, kani::unwind(12))]
+#[cfg_attr(kani, kani::stub(ChaCha::process_mut, pm_rec))]
+pub(crate) fn c04_drg_bytes_n1() {
     case_bytes::<1>();
-    case_bytes::<5>();
 }
 #[cfg_attr(kani, kani::proof)]
-#[cfg_attr(kani, kani::unwind(66))]
-#[doc = "verif-unwindset: ::process_mut$=4, xor_keystream_mut=10"]
-#[cfg_attr(kani, kani::stub(core::arch::x86_64::_mm_add_epi32, crate::verif_lib::mm_add_epi32_model))]
-pub(crate) fn c04_drg_u32_u64() {
-    let a = arb();
-    let mut d = Drg(mk_chacha::<2>(a.w, a.cached, a.offset));
+#[cfg_attr(kani, kani::unwind(12))]
+#[cfg_attr(kani, kani::stub(ChaCha::process_mut, pm_rec))]
+pub(crate) fn c04_drg_bytes_n9() {
+    case_bytes::<9>();
+}
+#[cfg_attr(kani, kani::proof)]
+#[cfg_attr(kani, kani::unwind(12))]
+#[cfg_attr(kani, kani::stub(ChaCha::process_mut, pm_rec))]
+pub(crate) fn c04_drg_u32() {
+    let (mut d, _e) = arb_drg();
     let v = d.u32();
-    let e = ((ks(&a, 0) as u32) << 24) | ((ks(&a, 1) as u32) << 16) | ((ks(&a, 2) as u32) << 8) | (ks(&a, 3) as u32);
-    vassert!(v == e, "Drg::u32: next 4 keystream bytes, big-endian");
-    check_after!(&a, &d, 4, "Drg::u32: stream position advanced by exactly 4");
-    let mut d = Drg(mk_chacha::<2>(a.w, a.cached, a.offset));
-    let v = d.u64();
-    let mut e = 0u64;
-    let mut i = 0;
-    while i < 8 {
-        e = (e << 8) | (ks(&a, i) as u64);
-        i += 1;
+    #[cfg(kani)]
+    unsafe {
+        vassert!(PN == 1 && P_LEN == 4 && P_ZERO, "Drg::u32: one cipher pass over a zeroed 4-byte buffer");
+        let e = ((P_OUT[0] as u32) << 24) | ((P_OUT[1] as u32) << 16) | ((P_OUT[2] as u32) << 8) | (P_OUT[3] as u32);
+        vassert!(v == e, "Drg::u32: next 4 keystream bytes, big-endian");
     }
-    vassert!(v == e, "Drg::u64: next 8 keystream bytes, big-endian");
-    check_after!(&a, &d, 8, "Drg::u64: stream position advanced by exactly 8");
+    let _ = v;
 }
 #[cfg_attr(kani, kani::proof)]
-#[cfg_attr(kani, kani::unwind(66))]
-#[doc = "verif-unwindset: ::process_mut$=4, xor_keystream_mut=10"]
-#[cfg_attr(kani, kani::stub(core::arch::x86_64::_mm_add_epi32, crate::verif_lib::mm_add_epi32_model))]
+#[cfg_attr(kani, kani::unwind(12))]
+#[cfg_attr(kani, kani::stub(ChaCha::process_mut, pm_rec))]
+pub(crate) fn c04_drg_u64() {
+    let (mut d, _e) = arb_drg();
+    let v = d.u64();
+    #[cfg(kani)]
+    unsafe {
+        vassert!(PN == 1 && P_LEN == 8 && P_ZERO, "Drg::u64: one cipher pass over a zeroed 8-byte buffer");
+        let mut e = 0u64;
+        let mut i = 0;
+        while i < 8 {
+            e = (e << 8) | (P_OUT[i] as u64);
+            i += 1;
+        }
+        vassert!(v == e, "Drg::u64: next 8 keystream bytes, big-endian");
+    }
+    let _ = v;
+}
+#[cfg_attr(kani, kani::proof)]
+#[cfg_attr(kani, kani::unwind(12))]
+#[cfg_attr(kani, kani::stub(ChaCha::process_mut, pm_rec))]
 pub(crate) fn c04_drg_fill_bytes_n5() {
     case_fill_bytes::<5>();
 }
 #[cfg_attr(kani, kani::proof)]
-#[cfg_attr(kani, kani::unwind(66))]
-#[doc = "verif-unwindset: ::process_mut$=4, xor_keystream_mut=10"]
-#[cfg_attr(kani, kani::stub(core::arch::x86_64::_mm_add_epi32, crate::verif_lib::mm_add_epi32_model))]
+#[cfg_attr(kani, kani::unwind(12))]
+#[cfg_attr(kani, kani::stub(ChaCha::process_mut, pm_rec))]
 pub(crate) fn c04_drg_fill_slice_le6() {
     case_fill_slice::<6>();
 }
@@ -147,6 +175,6 @@ pub(crate) fn c04_drg_new() {
     let seed: [u8; 32] = any();
     let d = Drg::<20>::new(&seed);
     let (w, _c, off) = chacha_parts(&d.0);
-    vassert!(words_eq(&w, &crate::chacha::verif_chacha::spec_init(&seed, &[0u8; 12])), "Drg::new: ChaCha state for (seed, zero nonce, block 0)");
+    vassert!(words_eq(&w, &spec_init(&seed, &[0u8; 12])), "Drg::new: ChaCha state for (seed, zero nonce, block 0)");
     vassert!(off == 64, "Drg::new: nothing cached");
 }
